@@ -21,7 +21,7 @@ LEVEL_TEXT = ("Clouds of 10^4-10^6 particles are stepped 1-50 times by the real 
               "and two runs must be identical.")
 LEVEL_NOTE = "Restated as bounded statistics: moments and independence only (no normality test). A 6-sigma band with 1e5 particles is +-2.7 % on the variance: false alarms at the 1e-8 level per test, factor-2/unit errors far outside."
 RULE = ("case = (D, Dz, dt, dx, dy, steps, cloud size, seed). Non-trivial: D > 0 or Dz > 0 with at least 2 steps (independence across steps observable); distinct by parameters.")
-MANDATORY = ["few_particle_series_tests", "particles_in_state_1", "particles_in_state_2", "horizontal_variance_tests", "vertical_variance_tests", "mean_tests", "cross_covariance_tests", "lag1_tests", "neighbour_tests", "growth_tests",
+MANDATORY = ["e2e_row_dependent_spacing_subgrid_off_diagonal", "coefficients_of_1e-8_or_less", "few_particle_series_tests", "particles_in_state_1", "particles_in_state_2", "horizontal_variance_tests", "vertical_variance_tests", "mean_tests", "cross_covariance_tests", "lag1_tests", "neighbour_tests", "growth_tests",
              "zero_diffusion_deterministic", "anisotropic_grid", "rng_seeded_by_harness", "e2e_variance_tests", "horizontal_vertical_covariance_tests", "varying_metric_variance_tests", "vertical_advection_with_diffusion_tests"]
 ASSUMPTIONS = ["still water, uniform metric, no boundaries reached (grid and water column far larger than the cloud)"]
 TIMEOUT = {"quick": 900, "thorough": 3400}
@@ -101,6 +101,12 @@ def gen_cases(tier: str, seed: int) -> list[dict[str, Any]]:
             c["D"] = float(rng.uniform(0.15, 0.6)) * min(c["dx"], c["dy"]) ** 2 / (2 * c["dt"])
             c["steps"] = int(rng.integers(5, 12))
             c["n"] = min(c["n"], 10**5)
+    # very small coefficients (molecular diffusivity, weak vertical mixing) on fine grids: "all D, Dz over several orders of magnitude"
+    for i in range(4 if tier == "quick" else 200):
+        rng = C.rng_for(seed, 113, i)
+        dx = float(rng.choice([0.01, 0.05, 0.5]))
+        cases.append(dict(idx=3 * 10**5 + i, rngseed=int(seed * 1299709 + i), D=float([1.0e-9, 5.0e-9, 1.0e-8, 2.0e-9][i % 4]), Dz=float([5.0e-9, 1.0e-9, 2.0e-9, 1.0e-8][i % 4]),
+                          dt=int(rng.choice([3600, 86400])), dx=dx, dy=dx, steps=3, n=10**5, advection=str(rng.choice(["", "EF"])), varying_metric=False, w=None, tiny=True))
     # very few particles followed over many steps: the variance and the independence are properties of every single particle, not of a large cloud
     for i in range(6 if tier == "quick" else 300):
         rng = C.rng_for(seed, 112, i)
@@ -129,7 +135,17 @@ def run_e2e(case: dict[str, Any], wd: Path) -> dict[str, Any]:
     sit: dict[str, int] = {}
     cnt: dict[str, int] = {}
     w = C.still_world(C.T0, str(tadd(C.T0, dt * (steps + 1))), imax=60, jmax=60, N=2, metric=dict(kind="uniform", dx=dx, dy=dy))
-    run = dict(start=C.T0, stop=str(tadd(C.T0, dt * (steps + 1))), dt=dt, advection="EF", diffusion=D,
+    eta = bool(case["idx"] % 2)
+    sub = None
+    if eta:
+        # grid spacing growing from row to row, loaded through a subgrid with i0 != j0: only the first step is judged (start row 30: spacing x 2.2),
+        # with a step small enough for the cloud to stay in that row
+        w["metric"] = dict(kind="eta_linear", dx=dx, dy=dy, slope=0.04)
+        sub = [[2, 58, 10, 55], [12, 57, 3, 58]][(case["idx"] // 2) % 2]
+        D = 0.5 * (0.15 * 2.2 * min(dx, dy)) ** 2 / dt
+        dx, dy = 2.2 * dx, 2.2 * dy
+        sit["e2e_row_dependent_spacing_subgrid_off_diagonal"] = 1
+    run = dict(start=C.T0, stop=str(tadd(C.T0, dt * (steps + 1))), dt=dt, advection="EF", diffusion=D, subgrid=sub,
                release=dict(columns=["release_time", "mult", "X", "Y", "Z"], rows=[[C.T0, n, 30.0, 30.0, 5.0]], header=True), output=dict(period=dt))
     with Hooks() as hk:
         hk.wrap(Tracker, "__init__", None, lambda tok, res, self, *a, **k: setattr(self, "rng", np.random.default_rng(case["rngseed"])))
@@ -140,6 +156,8 @@ def run_e2e(case: dict[str, Any], wd: Path) -> dict[str, Any]:
         return C.result(V, sit, cnt, nontrivial=True, key=str(desc), sample=desc)
     recs = all_records(read_outputs(res.outputs))
     for k, r in enumerate(recs[1:], start=1):
+        if eta and k > 1:
+            break
         if len(r.pid) != n:
             break  # somebody reached the boundary: the cloud is no longer a free random walk
         for name, d in (("X", dx), ("Y", dy)):
@@ -228,6 +246,8 @@ def run_case(case: dict[str, Any], wd: Path) -> dict[str, Any]:
         sit[k] = sit.get(k, 0) + 1
 
     desc = dict(D=D, Dz=Dz, dt=dt, dx=dx, dy=dy, steps=steps, n=n, rngseed=case["rngseed"])
+    if case.get("tiny"):
+        sit["coefficients_of_1e-8_or_less"] = 1
     timer, state, tr = make(case["rngseed"])
     sit["rng_seeded_by_harness"] = 1
     X0, Y0, Z0 = state.X.copy(), state.Y.copy(), state.Z.copy()
